@@ -269,3 +269,98 @@ def origins(P, body, local, seen=None, payload=False):
         else:
             out.add(("rvalue", rk))
     return out
+
+
+
+def private_closure(P, key):
+    """`key` plus the non-public functions and closures of its own crate it reaches: helpers extracted from a function count as part of it."""
+    crate = P.body(key)["crate"]
+    seen, todo = set(), [key]
+    while todo:
+        k = todo.pop()
+        if k in seen:
+            continue
+        seen.add(k)
+        for _, t in P.calls(k):
+            f = t["f"].get("fn")
+            if f in P.fns and P.fns[f]["crate"] == crate and P.fns[f].get("vis") != "pub" and f not in seen:
+                todo.append(f)
+        todo.extend(c for c in P.fns if c.startswith(k + "::{closure") and c not in seen)
+    return seen
+
+
+def promoted_value(P, key):
+    """What a promoted constant holds: ("uneval", path) for an associated constant, ("variant", adt, name) for a fieldless enum value, else None."""
+    b = P.fns.get(key) or P.const_bodies.get(key)
+    if not b:
+        return None
+
+    def val_of_local(l, depth=0):
+        for kind, _, dd in local_defs(b, l):
+            if kind != "stmt":
+                continue
+            r_ = dd["r"]
+            if r_.get("k") == "agg" and r_.get("vn") and not r_.get("ops"):
+                return ("variant", r_.get("adt"), r_["vn"])
+            if r_.get("k") == "use":
+                d_ = describe_operand(P, b, r_["o"])
+                if d_[0] in ("uneval", "const"):
+                    return d_
+                if r_["o"].get("k") in ("copy", "move") and not r_["o"]["p"]["pj"] and depth < 3:
+                    return val_of_local(r_["o"]["p"]["l"], depth + 1)
+        return None
+    for blk in b["blocks"]:
+        for s in blk["s"]:
+            if s["k"] == "assign" and s["p"]["l"] == 0 and not s["p"]["pj"]:
+                r = s["r"]
+                if r.get("k") == "ref" and not r["p"]["pj"]:
+                    return val_of_local(r["p"]["l"])      # `_0 = &_1; _1 = value`: the usual shape of a promoted
+                if r.get("k") == "agg" and r.get("vn") and not r.get("ops"):
+                    return ("variant", r.get("adt"), r["vn"])
+                if r.get("k") == "use":
+                    d = describe_operand(P, b, r["o"])
+                    if d[0] in ("uneval", "const"):
+                        return d
+                    # one more hop through a temporary
+                    if r["o"].get("k") in ("copy", "move"):
+                        for kind, _, dd in local_defs(b, r["o"]["p"]["l"]):
+                            if kind == "stmt" and dd["r"].get("k") == "agg" and dd["r"].get("vn") and not dd["r"].get("ops"):
+                                return ("variant", dd["r"].get("adt"), dd["r"]["vn"])
+                            if kind == "stmt" and dd["r"].get("k") == "use":
+                                d2 = describe_operand(P, b, dd["r"]["o"])
+                                if d2[0] in ("uneval", "const"):
+                                    return d2
+    return None
+
+
+def assoc_enum_guard(P, guards, assoc_path, adt):
+    """The variant of the fieldless enum `adt` that the associated constant `assoc_path` is known to equal under `guards`
+    (a `match` on it, or an `==` / `!=` against a constant variant); None if the guards do not decide it."""
+    names = {d: n for n, d in P.enum_variants(adt)}
+    for d, taken, _ in guards:
+        if d == ("discr", ("uneval", assoc_path)) and isinstance(taken, int):
+            return names.get(taken)
+        if d[0] == "call" and d[1].endswith("core::cmp::PartialEq>::eq") or d[0] == "call" and d[1].endswith("core::cmp::PartialEq>::ne"):
+            vals = []
+            for a in d[2]:
+                x = a
+                while isinstance(x, tuple) and x and x[0] in ("ref", "proj"):
+                    x = x[1]
+                if isinstance(x, tuple) and x and x[0] == "promoted":
+                    vals.append(promoted_value(P, x[1]))
+                elif isinstance(x, tuple) and x and x[0] == "uneval":
+                    vals.append(x)
+                else:
+                    vals.append(None)
+            if len(vals) == 2 and ("uneval", assoc_path) in vals:
+                other = [v for v in vals if v != ("uneval", assoc_path)]
+                if other and other[0] and other[0][0] == "variant" and other[0][1] == adt:
+                    truth = taken != 0
+                    if d[1].endswith("::ne"):
+                        truth = not truth
+                    if truth:
+                        return other[0][2]
+                    rest = [n for n in names.values() if n != other[0][2]]
+                    if len(rest) == 1:
+                        return rest[0]
+    return None
